@@ -111,7 +111,7 @@ fn draw_workload<M: Machine>() -> Workload {
         chunks.push(Chunk { id: i as u32, recs: [a, b], style: styles[srand(styles.len() as u64) as usize], ctor: srand(M::N_EMPTY as u64) as u8 });
     }
     let n_workers = 2 + srand(3) as usize;
-    Workload { chunks, n_workers, exact_data, knobs: json!({"family": tape::FAMILY_NAMES[family as usize % 13], "chunk_lens": lens, "workers": n_workers}) }
+    Workload { chunks, n_workers, exact_data, knobs: json!({"family": tape::FAMILY_NAMES[family as usize % 14], "chunk_lens": lens, "workers": n_workers}) }
 }
 
 /// operators whose first operand is the left one / the right one
@@ -624,7 +624,7 @@ fn draw_fault_workload<M: Machine>(nonpositive_only: bool) -> (Workload, Vec<FCh
         chunks.push(FChunk { c: Chunk { id: i as u32, recs: [a, b], style: styles[srand(styles.len() as u64) as usize], ctor: srand(M::N_EMPTY as u64) as u8 }, dropped });
     }
     let n_workers = 2 + srand(2) as usize;
-    let w = Workload { chunks: chunks.iter().map(|f| f.c.clone()).collect(), n_workers, exact_data: false, knobs: json!({"family": tape::FAMILY_NAMES[family as usize % 13], "chunk_lens": lens, "workers": n_workers, "fault_rate_tenths": fault_rate}) };
+    let w = Workload { chunks: chunks.iter().map(|f| f.c.clone()).collect(), n_workers, exact_data: false, knobs: json!({"family": tape::FAMILY_NAMES[family as usize % 14], "chunk_lens": lens, "workers": n_workers, "fault_rate_tenths": fault_rate}) };
     (w, chunks, fired)
 }
 
